@@ -9,6 +9,13 @@ package main
 // decoder (bit-exact numbers), strconv.ParseFloat of every printed number,
 // <circular reference> exactly at the point of recurrence, sharing printed in
 // full. A rendering that does not terminate is a timeout = violation (core.go).
+//
+// print-current-record: a bare print / a body-less rule renders the value $ has AT THAT
+// MOMENT: the same record is printed several times with in-place updates in between
+// (expected text from the ideal interpreter of fam_c09.go).
+// print-bookkeeping: print applied directly to results that carry internal bookkeeping
+// (missing elements and members, string characters, method values, results of ++ and
+// assignments, match results): null is the word null in every position.
 
 import (
 	"fmt"
@@ -540,6 +547,379 @@ func init() {
 					}
 					return ""
 				}})
+			}
+		},
+	})
+}
+
+// ---------------------------------------------------------------- print-current-record
+
+// c17Current builds one program that prints the same record several times — bare print,
+// print $, body-less rules, a function that prints — with in-place updates of the record
+// between the prints (statements of fam_c09's generator, chosen with the state in view:
+// member / index assignment at any depth, compound assignment, ++ --, push / pop /
+// popfirst, writes through aliases, parameters, for-in variables and match bindings,
+// `$ = ...`). ideal: the same program with every observation written as `print $`.
+func c17Current(r *rand.Rand) (prog, doc string, funcs []*c09Func, ideal []*c09Stmt, bf, ef int, nobs int) {
+	doc = c09GenDoc(r, 0, true)
+	if chance(r, 0.25) {
+		doc = "[" + doc
+		for k := r.Intn(3); k > 0; k-- {
+			doc += ", " + c09GenDoc(r, 0, true)
+		}
+		doc += "]"
+	}
+	g := &c09Gen{r: r, in: c09NewInterp(c09Helpers...), errOK: 0}
+	root := &c09Cell{c09Decode(doc)}
+	g.in.root = root
+	if root.v.k == 'a' {
+		g.in.root = root.v.a.e[0]
+	}
+	funcs = c09Helpers
+	var rules []string // finished rules
+	var cur []string   // statements of the rule being written
+	prevBodyless := false
+	closeRule := func() {
+		if len(cur) == 0 {
+			return
+		}
+		head := ""
+		if prevBodyless {
+			head = pick(r, []string{"1 ", "true "}) // `{` right after a body-less rule would be taken as its body
+		} else if chance(r, 0.2) {
+			head = pick(r, []string{"1 ", "true ", "!false "})
+		}
+		rules = append(rules, head+"{\n  "+strings.Join(cur, "\n  ")+"\n}")
+		cur = nil
+		prevBodyless = false
+	}
+	ok := true
+	add := func(text string, ss ...*c09Stmt) {
+		for _, st := range ss {
+			ideal = append(ideal, st)
+			if ok && g.in.exec(st) != nil {
+				ok = false // the run ends here; nothing more is generated
+			}
+		}
+		if text != "" {
+			cur = append(cur, strings.TrimSuffix(text, "\n"))
+		}
+	}
+	show := c09Print(c09V("$"))
+	observe := func() {
+		nobs++
+		switch k := r.Intn(12); {
+		case k < 4:
+			add("print", show)
+		case k < 5:
+			add("print $", show)
+		case k < 7:
+			if chance(r, 0.5) {
+				add("print", show)
+				add("print $", show)
+			} else {
+				add("print $", show)
+				add("print", show)
+			}
+		case k < 10:
+			// a rule without a body
+			closeRule()
+			ideal = append(ideal, show)
+			if ok && g.in.exec(show) != nil {
+				ok = false
+			}
+			rules = append(rules, pick(r, []string{"true", "1", "!false", `"x"`}))
+			prevBodyless = true
+		case k < 11:
+			add("print", show)
+			add("print", show)
+		default:
+			add("show()", show)
+		}
+		if chance(r, 0.4) {
+			closeRule()
+		}
+	}
+	// aliases into the record: updates through them change the record in place as well
+	alias := c09Do(&c09Asg{c09V("b"), c09V("$")})
+	add(alias.text(), alias)
+	if p := g.genPath(1, 2, 'c'); p != nil {
+		st := c09Do(&c09Asg{c09V("a"), p})
+		add(st.text(), st)
+	}
+	if chance(r, 0.5) {
+		st := c09Do(&c09Asg{c09V("c"), c09ScalarLit(r)})
+		add(st.text(), st)
+	}
+	observe()
+	for n := 2 + r.Intn(5); n > 0 && ok; n-- {
+		for m := 1 + r.Intn(2); m > 0 && ok; m-- {
+			if p := g.genPath(0, 3, 'a'); p != nil && chance(r, 0.2) {
+				// results of array methods stored back into the record
+				var st *c09Stmt
+				switch r.Intn(4) {
+				case 0:
+					st = c09Do(&c09Asg{p, &c09Call{p, "sort", nil}})
+				case 1:
+					st = c09Do(&c09Asg{g.genPath(1, 3, 0), &c09Call{p, "pop", nil}})
+				case 2:
+					st = c09Do(&c09Call{p, "push", []c09Expr{&c09Call{p, "length", nil}}})
+				default:
+					st = c09Do(&c09Asg{g.genPath(1, 2, 0), &c09Call{p, "sort", nil}})
+				}
+				add(st.text(), st)
+				continue
+			}
+			for _, st := range g.genStmt() {
+				add(st.text(), st)
+			}
+		}
+		if ok {
+			observe()
+		}
+	}
+	closeRule()
+	var sb strings.Builder
+	for _, f := range funcs {
+		sb.WriteString(f.text())
+	}
+	sb.WriteString("function show() { print }\n")
+	if chance(r, 0.4) {
+		bf = 1
+		sb.WriteString("BEGINFILE { print }\n")
+	}
+	sb.WriteString(strings.Join(rules, "\n") + "\n")
+	if chance(r, 0.5) {
+		ef = 1 + r.Intn(2)
+		sb.WriteString([]string{"", "ENDFILE { print }\n", "ENDFILE { print; print $ }\n"}[ef])
+	}
+	return sb.String(), doc, funcs, ideal, bf, ef, nobs
+}
+
+// c17RunCurrent: what the program of c17Current must print: BEGINFILE shows the root as
+// read, every observation shows the record as it is at that moment, ENDFILE shows the
+// root as selected (its containers are shared with the records, so updates in place show).
+func c17RunCurrent(funcs []*c09Func, body []*c09Stmt, doc string, bf, ef int) (class, out string, lateStrIdx bool) {
+	in := c09NewInterp(funcs...)
+	root := &c09Cell{c09Decode(doc)}
+	orig := root.v
+	for ; bf > 0; bf-- {
+		in.out.WriteString(c09Pretty(root.v, false) + "\n")
+	}
+	cells := []*c09Cell{root}
+	if root.v.k == 'a' {
+		cells = append([]*c09Cell{}, root.v.a.e...)
+	}
+	for _, c := range cells {
+		in.root = c
+		if err := in.execAll(body); err != nil {
+			if err == c09ErrUnsupported {
+				return "unsupported", "", false
+			}
+			return "runtime", in.out.String(), in.lateStrIdx > 0
+		}
+	}
+	for ; ef > 0; ef-- {
+		in.out.WriteString(c09Pretty(orig, false) + "\n")
+	}
+	return "ok", in.out.String(), in.lateStrIdx > 0
+}
+
+// ---------------------------------------------------------------- print-bookkeeping
+
+type c17BK struct {
+	expr   string
+	top    string // rendering as a print argument ("" = left to the model)
+	nested string // rendering inside a container ("" = left to the model, "!" = not storable)
+	pure   bool   // evaluating it twice gives the same
+	null   bool   // the value is null: the word null in every position, json() and %v included
+}
+
+const c17BKSetup = `a = [1, 2]; o = {k: 1, n: null}; s = "abc"; e = []; n1 = 1`
+const c17BKFuncs = "function f(v) { return v }\nfunction g() { return a[9] }\nfunction h(v) { return v[5] }\n"
+const c17BKDoc = `{"xs": [1, 2], "o": {"a": {}}, "s": "hello", "n": 5, "z": null}`
+
+func c17BKPool() []c17BK {
+	var pool []c17BK
+	for _, e := range []string{
+		// array elements past the end (variables, the document, literals, computed indices, results of methods)
+		"a[9]", "a[2]", "$.xs[2]", "$.xs[7]", "e[0]", "[][0]", "[1][1]", "$.xs[2 + 0]", "a[1 + 8]", "a[a[1]]", "[1, 2, 3].sort()[5]", `"a,b".split(",")[4]`, "$.xs[$.n]",
+		// numeric index / member of an unset variable
+		"u1[3]", "u2[0]", "u3[1][2]", "u4.k", "u5.k.j", "u6[a[0]]",
+		// string index out of range
+		"s[7]", "s[3]", `"xyz"[5]`, "$.s[9]", `""[0]`,
+		// missing object members, at depth, through scalars and nulls
+		"o.zz", "$.o.a.b.c", "$.nope", "$.o.a.zz", "o.k.j", "o.zz.y", `o["no such"]`, `{p: 1}.pluck("q").q`,
+		// members that ARE null, the literal
+		"o.n", "$.z", "null",
+		// chains through a missing element
+		"a[9][0]", "s[7][0]", "a[9].k", "$.xs[5].deep.er",
+		// handed on by match, functions, assignments, methods
+		"match (5) { 5 => a[9] }", "match (1) { 2 => 0 }", "match (a[9]) { q => q }", "match (s[7]) { q => q }", "f(a[9])", "f(s[7])", "f(u1[3])", "g()", "h(a)", "h(s)",
+		"[].pop()", "e.pop()", "e.popfirst()", "(y = a[9])", "(y = s[7])", "(y = o.zz)", "(o.fresh = a[9])", "(a[4] = u1[0])",
+	} {
+		pure := !strings.Contains(e, "pop") && !strings.Contains(e, " = ")
+		pool = append(pool, c17BK{expr: e, top: "null", nested: "null", pure: pure, null: true})
+	}
+	pool = append(pool, []c17BK{
+		// string characters
+		{"s[0]", "a", `"a"`, true, false}, {"s[1]", "b", `"b"`, true, false}, {"s[2]", "c", `"c"`, true, false}, {`"xyz"[2]`, "z", `"z"`, true, false}, {"$.s[1]", "e", `"e"`, true, false},
+		{"s[1][0]", "b", `"b"`, true, false}, {"f(s[1])", "b", `"b"`, true, false}, {"match (s[1]) { q => q }", "b", `"b"`, true, false},
+		// negative indices count from the end
+		{"a[-1]", "2", "2", true, false}, {"a[-2]", "1", "1", true, false}, {"$.xs[-1]", "2", "2", true, false},
+		// method values
+		{"a.length", "<nativefunction>", "!", true, false}, {"s.upper", "<nativefunction>", "!", true, false}, {"o.pluck", "<nativefunction>", "!", true, false},
+		{"$.xs.push", "<nativefunction>", "!", true, false}, {"(5).floor", "<nativefunction>", "!", true, false}, {"a[0].round", "<nativefunction>", "!", true, false}, {"s[1].upper", "<nativefunction>", "!", true, false},
+		// results of assignments and ++ / --
+		{"(x = 5)", "5", "5", false, false}, {`(x = "t")`, "t", `"t"`, false, false}, {"n1++", "1", "1", false, false}, {"++n1", "2", "2", false, false}, {"n1--", "1", "1", false, false}, {"--n1", "0", "0", false, false},
+		{"(n1 += 4)", "5", "5", false, false}, {"(a[1] += 2)", "4", "4", false, false}, {"(a[5] = 7)", "7", "7", false, false}, {`(o.new = "v")`, "v", `"v"`, false, false}, {"(o.d.e = 1)", "1", "1", false, false},
+		{"$.n++", "5", "5", false, false}, {"++$.n", "6", "6", false, false}, {"($.n -= 1)", "4", "4", false, false}, {"(q = [1, 2])", "[1, 2]", "[1, 2]", false, false}, {"a[0]++", "1", "1", false, false}, {"$.xs[1]--", "2", "2", false, false},
+		{"(u7[2] = 3)", "3", "3", false, false}, {"u8[1]++", "", "", false, false}, {"++u9.k", "", "", false, false}, {"o.zz++", "", "", false, false},
+		// match results, predicates and arithmetic over missing values
+		{`match (a[9]) { null => "was-null", q => q }`, "was-null", `"was-null"`, true, false}, {`match (s[1]) { "b" => 1, q => 2 }`, "1", "1", true, false}, {"match (a[0]) { q => q }", "1", "1", true, false},
+		{"a.contains(9)", "false", "false", true, false}, {"json(a[9])", "null", `"null"`, true, false}, {"json(s[7])", "null", `"null"`, true, false}, {"a[9] is null", "true", "true", true, false}, {"u1[3] is null", "true", "true", true, false},
+		{"s[7] is null", "true", "true", true, false}, {"a[9] + 1", "1", "1", true, false}, {"-a[9]", "-0", "-0", true, false}, {"a[9] == null", "true", "true", true, false}, {"!a[9]", "true", "true", true, false},
+		{"a.length()", "2", "2", true, false}, {"s.length()", "3", "3", true, false}, {"a[1]", "2", "2", true, false}, {"o.k", "1", "1", true, false}, {"$.o", `{"a": {}}`, `{"a": {}}`, true, false}, {"$.xs", "[1, 2]", "[1, 2]", true, false},
+	}...)
+	return pool
+}
+
+// c17BKCase emits one program: the setup, then one statement; want == "" leaves the
+// expectation to the model; mustNull: whatever else, the output may not lose the word null.
+func c17BKCase(emit func(Case), stmt, want string, nulls int, row, col string) {
+	prog := c17BKFuncs + "{\n  " + c17BKSetup + "\n  " + stmt + "\n}\n"
+	emit(Case{Req: RunReq(prog, nil, vgDocFile(c17BKDoc), false), Fields: c17Fields,
+		Meta: metaProg(prog, "input", c17BKDoc, "expect", strconv.Quote(want), "row", row, "col", col),
+		Oracle: func(i Resp) string {
+			out := string(i.Bytes("out"))
+			if want != "" {
+				if i["class"] != "ok" || out != want {
+					return "expected exactly " + strconv.Quote(want) + ", got class=" + i["class"] + " out=" + strconv.Quote(out)
+				}
+				return ""
+			}
+			if i["class"] == "ok" && strings.Count(out, "null") < nulls {
+				return fmt.Sprintf("%d null value(s) printed, but the word null appears %d times in %s", nulls, strings.Count(out, "null"), strconv.Quote(out))
+			}
+			return ""
+		},
+		NonTrivial: func(i Resp) bool { return i["class"] == "ok" || i["class"] == "runtime" }})
+}
+
+func init() {
+	register(Family{
+		Name: "print-current-record", Prop: "C17",
+		Rule: "the same record printed 3-8 times by bare print, print $, both (either order), bare print twice, body-less rules (true, 1, !false, \"x\") and a function that prints, in one or several rules, with 1-2 in-place updates between the prints: statements chosen with the state in view (member / index assignment at depth 0-4 with auto-creation, compound assignment, ++ --, push / pop / popfirst, results of sort / pop / length stored back into the record, writes through the aliases a = $.path and b = $, through parameters, for-in variables and match bindings, `$ = ...`); object roots and arrays of 1-3 records; 40 % also print the root in BEGINFILE and 50 % in ENDFILE (bare print, print $) after the records were updated; oracle: the ideal interpreter of C09 with every observation read as `print $` (a bare print / body-less rule prints the value $ has at that moment); compared with the model on class and out",
+		Gen: func(r *rand.Rand, tier string, emit func(Case)) {
+			n := tierN(tier, 3000, 40000)
+			for i := 0; i < n; i++ {
+				prog, doc, funcs, ideal, bf, ef, nobs := c17Current(r)
+				class, out, late := c17RunCurrent(funcs, ideal, doc, bf, ef)
+				c := Case{Req: RunReq(prog, nil, vgDocFile(doc), false), Fields: c17Fields,
+					Meta:       metaProg(prog, "input", doc, "observations", strconv.Itoa(nobs), "ideal_class", class),
+					NonTrivial: func(i Resp) bool { return i["class"] == "ok" || i["class"] == "runtime" }}
+				if class != "unsupported" {
+					if late {
+						c.ImplOnly = true // fam_c09.go c09Interp.lateStrIdx: a known inaccuracy of the model; the ideal interpreter decides
+						c.Meta["model"] = "not asked: store through a string index whose base became a container"
+					}
+					want := out
+					c.Oracle = func(i Resp) string {
+						if i["class"] != class {
+							return fmt.Sprintf("ideal interpreter: class %s expected, implementation says %s (msg %s)", class, i["class"], i["msg"])
+						}
+						if got := string(i.Bytes("out")); got != want {
+							return "a bare print / body-less rule / print $ did not print the value $ has at that moment: " + c09FirstDiff(got, want)
+						}
+						return ""
+					}
+				}
+				emit(c)
+			}
+		},
+	})
+
+	register(Family{
+		Name: "print-bookkeeping", Prop: "C17",
+		Rule: "print applied DIRECTLY to expression results that carry internal bookkeeping: 60 expressions yielding null (array elements past the end of variables / document arrays / literals / method results with constant and computed indices, numeric index and member of an unset variable, string index out of range, missing object members at any depth and through scalars, members that are null, chains through a missing element, the same handed on by match / functions / assignments / pop of an empty array), string characters, negative indices, method values, results of assignments and ++ / -- (variables, elements, members, document paths, auto-created targets), match results, predicates and arithmetic over missing values; each alone, between two other arguments, twice in one print, inside an array / object literal, through printf %v, through json(), after assignment to a variable and as a function argument (systematic: every expression x every position), plus random print lists of 2-6 of the pure ones; oracle: exact text where the property fixes it (null is the word null in EVERY position, arguments joined by one space, strings bare at the top and quoted inside containers), otherwise the word null appears once per null value; compared with the model on class and out",
+		Gen: func(r *rand.Rand, tier string, emit func(Case)) {
+			pool := c17BKPool()
+			for _, e := range pool {
+				row := "value"
+				if e.null {
+					row = "null"
+				} else if e.nested == "!" {
+					row = "method"
+				} else if !e.pure {
+					row = "side-effect"
+				}
+				w := func(s string) string {
+					if e.top == "" {
+						return ""
+					}
+					return s
+				}
+				c17BKCase(emit, "print "+e.expr, w(e.top+"\n"), 0, row, "alone")
+				c17BKCase(emit, `print "<", `+e.expr+`, ">"`, w("< "+e.top+" >\n"), 0, row, "in-list")
+				c17BKCase(emit, "print "+e.expr+", 2", w(e.top+" 2\n"), 0, row, "first-of-two")
+				if e.nested != "!" {
+					c17BKCase(emit, "v = "+e.expr+"\n  print v", w(e.top+"\n"), 0, row, "via-variable")
+				} else {
+					c17BKCase(emit, "v = "+e.expr+"\n  print v", "", 0, row, "via-variable") // a method value cannot be stored: left to the model
+				}
+				if e.pure {
+					c17BKCase(emit, "print "+e.expr+", "+e.expr, w(e.top+" "+e.top+"\n"), 0, row, "twice")
+					c17BKCase(emit, "print "+e.expr+"\n  print "+e.expr, w(e.top+"\n"+e.top+"\n"), 0, row, "two-prints")
+				}
+				if e.nested != "!" {
+					wn := func(s string) string {
+						if e.nested == "" {
+							return ""
+						}
+						return s
+					}
+					c17BKCase(emit, "print ["+e.expr+"]", wn("["+e.nested+"]\n"), 0, row, "array-literal")
+					c17BKCase(emit, "print {k: "+e.expr+"}", wn(`{"k": `+e.nested+"}\n"), 0, row, "object-literal")
+					c17BKCase(emit, "print [0, ["+e.expr+`], "s"], `+e.expr, "", 0, row, "nested-and-direct")
+				}
+				nulls := 0
+				want := ""
+				if e.null {
+					nulls, want = 1, "null|\n"
+				}
+				c17BKCase(emit, `printf("%v|\n", `+e.expr+")", want, nulls, row, "printf-%v")
+				if e.null {
+					want = "null\n"
+				}
+				c17BKCase(emit, "print json("+e.expr+")", want, nulls, row, "json()")
+				if e.nested != "!" {
+					c17BKCase(emit, "print f("+e.expr+")", w(e.top+"\n"), 0, row, "function-argument")
+				}
+			}
+			var pure, pureNull []c17BK
+			for _, e := range pool {
+				if e.pure && e.top != "" {
+					pure = append(pure, e)
+					if e.null {
+						pureNull = append(pureNull, e)
+					}
+				}
+			}
+			n := tierN(tier, 1500, 20000)
+			for i := 0; i < n; i++ {
+				k := 2 + r.Intn(5)
+				exprs, tops := make([]string, k), make([]string, k)
+				for j := range exprs {
+					e := pick(r, pure)
+					if chance(r, 0.6) {
+						e = pick(r, pureNull) // mostly the null-valued ones
+					}
+					exprs[j], tops[j] = e.expr, e.top
+					if chance(r, 0.15) && e.nested != "!" {
+						exprs[j], tops[j] = "["+e.expr+"]", "["+e.nested+"]"
+					}
+				}
+				c17BKCase(emit, "print "+strings.Join(exprs, ", "), strings.Join(tops, " ")+"\n", 0, "list", fmt.Sprintf("%d-arguments", k))
 			}
 		},
 	})
